@@ -22,7 +22,9 @@ Inductive js :=
 | JParen (a : js)                          (* (a) : a number or signed value as receiver of a method *)
 | JCall (f : string) (args : list js)      (* f(a, b, ...) *)
 | JList (items : list js)                  (* list(...) *)
-| JPropList (items : list js).             (* propList(k, v, ...) *)
+| JPropList (items : list js)              (* propList(k, v, ...) *)
+| JDot (a : js) (p : string)               (* a.p : a property of an object *)
+| JIdx (a i : js).                         (* a[i] *)
 
 Fixpoint pp_js (j : js) : string :=
   match j with
@@ -39,6 +41,8 @@ Fixpoint pp_js (j : js) : string :=
   | JCall f args => f ++ "(" ++ join ", " (map pp_js args) ++ ")"
   | JList items => "list(" ++ join ", " (map pp_js items) ++ ")"
   | JPropList items => "propList(" ++ join ", " (map pp_js items) ++ ")"
+  | JDot a p => pp_js a ++ "." ++ p
+  | JIdx a i => pp_js a ++ "[" ++ pp_js i ++ "]"
   end.
 
 (* the fixed correspondences for operators *)
@@ -78,6 +82,14 @@ Definition needs_paren (en : env) (e : expr) : bool :=
   end.
 Definition js_recv (en : env) (e : expr) (j : js) : js := if needs_paren en e then JParen j else j.
 
+(* the identifier of a sound / sprite / cast member / menu / menuItem: a constant is written as it is *)
+Definition raw_const (en : env) (k : nat) : string := match nth k (e_consts en) (CInt 0) with CStr s => s | CInt z => str_of_int z end.
+Definition js_raw_or (en : env) (x : expr) (j : js) : js :=
+  match x with EInt n => JLit (str_of_int n) | EConst k => JLit (raw_const en k) | _ => j end.
+Definition js_menubar : js := JMember "_menuBar" "menu".
+(* the JavaScript names of the one-operand string operations (the regenerated table) *)
+Definition js_una (name : string) : string := assoc_or name JS_UNA_OP.
+
 Fixpoint to_js (fm : bool) (en : env) (e : expr) {struct e} : js :=
   match e with
   | EInt n => JLit (LingoGen.js_const KConst (str_of_int n))      (* the digits, verbatim *)
@@ -99,7 +111,23 @@ Fixpoint to_js (fm : bool) (en : env) (e : expr) {struct e} : js :=
   | ELCall f args => JCall (nth f (e_lfuncs en) "") (map (to_js fm en) args)
   | EList items => JList (map (to_js fm en) items)
   | EPList items => JPropList (map (to_js fm en) items)
-  | EObj _ _ _ | EMenu _ _ _ => JLit ""      (* object properties are outside the JavaScript theorems (js_ok) *)
+  | EObj f pid x =>
+    let jx := to_js fm en x in
+    let id := js_raw_or en x jx in
+    match f with
+    | FSound => JDot (JUn "sound" id) (nth pid SOUND_PROPERTIES "")
+    | FSprite => JDot (JUn "sprite" id) (nth pid SPRITE_PROPERTIES "")
+    | FCast => JDot (JUn "member" id) (nth pid CAST_PROPERTIES "")
+    | FVideo => JDot (JUn "member" id) (nth pid VIDEO_PROPERTIES "")
+    | FField => JDot (JUn "field" jx) (nth pid CAST_PROPERTIES "")
+    | FLast => JIdx (JDot jx (nth (pid - 11) OPERATION_TYPES "")) (JLit ("""" ++ js_una "last" ++ """"))
+    | FNumber => JDot (JDot jx (nth pid OPERATION_TYPES "")) (js_una "number")
+    | FMenuName => JDot (JIdx js_menubar id) (js_una "name")
+    | FMenuItems => JDot (JDot (JIdx js_menubar id) "item") (js_una "number")
+    end
+  | EMenu pid it mn =>
+    JDot (JIdx (JDot (JIdx js_menubar (js_raw_or en mn (to_js fm en mn))) "item") (js_raw_or en it (to_js fm en it)))
+         (nth pid MENUITEM_PROPERTIES "")
   end.
 
 (* side conditions: locals are plain local-variable nodes; call names have no translation of their own *)
@@ -114,7 +142,9 @@ Fixpoint js_ok (en : env) (e : expr) {struct e} : Prop :=
                     (fix all (l : list expr) : Prop := match l with [] => True | x :: r => js_ok en x /\ all r end) args
   | EList items | EPList items =>
                     (fix all (l : list expr) : Prop := match l with [] => True | x :: r => js_ok en x /\ all r end) items
-  | EObj _ _ _ | EMenu _ _ _ => False
+  (* a chunk of a number or of a signed value would need parentheses the generator does not write (5.word.length) *)
+  | EObj f _ x => js_ok en x /\ match f with FLast | FNumber => needs_paren en x = false | _ => True end
+  | EMenu _ it mn => js_ok en it /\ js_ok en mn
   | _ => True
   end.
 Fixpoint js_ok_args (en : env) (l : list expr) : Prop := match l with [] => True | x :: r => js_ok en x /\ js_ok_args en r end.
@@ -124,7 +154,13 @@ Inductive nexpr :=
 | NLit (s : string) | NSym (s : string) | NVar (s : string) | NThis
 | NGlob (s : string) | NProp (owner s : string)
 | NBin (o : binop) (a b : nexpr) | NNeg (a : nexpr) | NNot (a : nexpr)
-| NCall (f : string) (args : list nexpr) | NList (items : list nexpr) | NPList (items : list nexpr).
+| NCall (f : string) (args : list nexpr) | NList (items : list nexpr) | NPList (items : list nexpr)
+| NObj (kind prop : string) (id : nexpr)          (* the prop of sound / sprite / member / field id *)
+| NLastChunk (ty : string) (a : nexpr) | NChunkCount (ty : string) (a : nexpr)
+| NMenuName (id : nexpr) | NMenuItems (id : nexpr) | NMenuItem (prop : string) (item menu : nexpr).
+
+Definition n_raw_or (en : env) (x : expr) (n : nexpr) : nexpr :=
+  match x with EInt k => NLit (str_of_int k) | EConst k => NLit (raw_const en k) | _ => n end.
 
 (* the source expression with its names looked up *)
 Fixpoint name_e (fm : bool) (en : env) (e : expr) {struct e} : nexpr :=
@@ -143,7 +179,22 @@ Fixpoint name_e (fm : bool) (en : env) (e : expr) {struct e} : nexpr :=
   | ELCall f args => NCall (nth f (e_lfuncs en) "") (map (name_e fm en) args)
   | EList items => NList (map (name_e fm en) items)
   | EPList items => NPList (map (name_e fm en) items)
-  | EObj _ _ _ | EMenu _ _ _ => NLit ""
+  | EObj f pid x =>
+    let nx := name_e fm en x in
+    let id := n_raw_or en x nx in
+    match f with
+    | FSound => NObj "sound" (nth pid SOUND_PROPERTIES "") id
+    | FSprite => NObj "sprite" (nth pid SPRITE_PROPERTIES "") id
+    | FCast => NObj "member" (nth pid CAST_PROPERTIES "") id
+    | FVideo => NObj "member" (nth pid VIDEO_PROPERTIES "") id
+    | FField => NObj "field" (nth pid CAST_PROPERTIES "") nx
+    | FLast => NLastChunk (nth (pid - 11) OPERATION_TYPES "") nx
+    | FNumber => NChunkCount (nth pid OPERATION_TYPES "") nx
+    | FMenuName => NMenuName id
+    | FMenuItems => NMenuItems id
+    end
+  | EMenu pid it mn =>
+    NMenuItem (nth pid MENUITEM_PROPERTIES "") (n_raw_or en it (name_e fm en it)) (n_raw_or en mn (name_e fm en mn))
   end.
 
 Definition all_binops : list binop :=
@@ -163,6 +214,10 @@ Fixpoint all_some_n (l : list (option nexpr)) : option (list nexpr) :=
   | None :: _ => None
   end.
 
+Definition is_menubar (j : js) : bool :=
+  match j with JMember o f => String.eqb o "_menuBar" && String.eqb f "menu" | _ => false end.
+Definition obj_kind (k : string) : bool := mem_str k ["sound"; "sprite"; "member"; "field"].
+
 Fixpoint read_js (j : js) {struct j} : option nexpr :=
   match j with
   | JLit s => Some (NLit s)
@@ -180,4 +235,31 @@ Fixpoint read_js (j : js) {struct j} : option nexpr :=
   | JCall f args => option_map (NCall f) (all_some_n (map read_js args))
   | JList items => option_map NList (all_some_n (map read_js items))
   | JPropList items => option_map NPList (all_some_n (map read_js items))
+  | JDot a p =>
+    match a with
+    | JUn k i => if obj_kind k then option_map (NObj k p) (read_js i) else None       (* sound(i).p ... *)
+    | JIdx m i =>
+      if is_menubar m then (if String.eqb p (js_una "name") then option_map NMenuName (read_js i) else None)   (* _menuBar.menu[i].name *)
+      else match m with
+           | JDot (JIdx m0 mi) f =>                                                  (* _menuBar.menu[mi].item[i].p *)
+             if is_menubar m0 && String.eqb f "item"
+             then match read_js i, read_js mi with Some ni, Some nm => Some (NMenuItem p ni nm) | _, _ => None end
+             else None
+           | _ => None
+           end
+    | JDot x t =>
+      if String.eqb p (js_una "number") then
+        match x with
+        | JIdx m0 mi => if is_menubar m0 && String.eqb t "item" then option_map NMenuItems (read_js mi)    (* _menuBar.menu[mi].item.length *)
+                        else option_map (NChunkCount t) (read_js x)
+        | _ => option_map (NChunkCount t) (read_js x)                                 (* x.word.length *)
+        end
+      else None
+    | _ => None
+    end
+  | JIdx a i =>
+    match a, i with
+    | JDot x t, JLit q => if String.eqb q ("""" ++ js_una "last" ++ """") then option_map (NLastChunk t) (read_js x) else None   (* x.word["last"] *)
+    | _, _ => None
+    end
   end.
